@@ -12,6 +12,20 @@ CONSTANTS NAlpha = 68
  NZStruct = 6
  NCtx = 18
  NValCtx = 12
+ FtExit = {1,2,3,126,127,128,255}
+ FtSignals = {1,2,3,4,6,7,8,9,11,13,14,15,24,25,31}
+ FateStride = 1
+ NValid = 1
+ NCont = 3
+ NLead = 14
+ NContByte = 3
+ PrefStride = 1
+ NAType = 23
+ NAForm2 = 3
+ NAForm = 13
+ AtomStride = 1
+ NQual = 9
+ NQPos = 18
  Emit = TRUE
 INVARIANT WellFormed
 CHECK_DEADLOCK FALSE
